@@ -135,9 +135,15 @@ fn generate_serialize_impl(
 
     Ok(quote! {
         impl #impl_generics serde::Serialize for #name #ty_generics #where_clause {
-            fn serialize<S>(&self, #[allow(unused)] serializer: S) -> core::result::Result<S::Ok, S::Error>
+            // The locals of this function share a scope with the bindings of a variant's fields
+            // in the match arms below, and its generic parameter is visible where the field types
+            // are named, hence their prefixed names.
+            fn serialize<__ZlinkS>(
+                &self,
+                #[allow(unused)] __zlink_serializer: __ZlinkS,
+            ) -> core::result::Result<__ZlinkS::Ok, __ZlinkS::Error>
             where
-                S: serde::Serializer,
+                __ZlinkS: serde::Serializer,
             {
                 match #match_expr {
                     #(#variant_arms)*
@@ -160,9 +166,9 @@ fn generate_serialize_variant_arm(
         Fields::Unit => Ok(quote! {
             Self::#variant_name => {
                 use serde::ser::SerializeMap;
-                let mut map = serializer.serialize_map(Some(1))?;
-                map.serialize_entry("error", #qualified_name)?;
-                map.end()
+                let mut __zlink_map = __zlink_serializer.serialize_map(Some(1))?;
+                __zlink_map.serialize_entry("error", #qualified_name)?;
+                __zlink_map.end()
             }
         }),
         Fields::Named(fields) => {
@@ -173,7 +179,7 @@ fn generate_serialize_variant_arm(
             let field_types = &field_info.types;
             let field_name_strs = &field_info.name_strings;
 
-            // Convert field types to use synthetic lifetime for ParametersSerializer
+            // Convert field types to use synthetic lifetime for __ZlinkParametersSerializer
             // only if enum has lifetimes.
             let serializer_field_types: Vec<syn::Type> = if has_lifetimes {
                 field_types
@@ -188,17 +194,17 @@ fn generate_serialize_variant_arm(
                 Self::#variant_name { #(#field_names,)* } => {
                     use serde::ser::SerializeMap;
 
-                    let mut map = serializer.serialize_map(Some(2))?;
-                    map.serialize_entry("error", #qualified_name)?;
+                    let mut __zlink_map = __zlink_serializer.serialize_map(Some(2))?;
+                    __zlink_map.serialize_entry("error", #qualified_name)?;
 
                     // Create a nested "parameters" object.
-                    map.serialize_entry("parameters", &{
+                    __zlink_map.serialize_entry("parameters", &{
                         use serde::ser::SerializeMap;
-                        struct ParametersSerializer<'__param> {
+                        struct __ZlinkParametersSerializer<'__param> {
                             #(#field_names: &'__param #serializer_field_types,)*
                         }
 
-                        impl<'__param> serde::Serialize for ParametersSerializer<'__param> {
+                        impl<'__param> serde::Serialize for __ZlinkParametersSerializer<'__param> {
                             fn serialize<S>(&self, serializer: S) -> core::result::Result<S::Ok, S::Error>
                             where
                                 S: serde::Serializer,
@@ -211,12 +217,12 @@ fn generate_serialize_variant_arm(
                             }
                         }
 
-                        ParametersSerializer {
+                        __ZlinkParametersSerializer {
                             #(#field_names,)*
                         }
                     })?;
 
-                    map.end()
+                    __zlink_map.end()
                 }
             })
         }
@@ -336,9 +342,11 @@ fn generate_deserialize_with_derive(
         // Implement Deserialize using a modified version of the enum with serde attributes.
         #[allow(unreachable_code)]
         impl #impl_generics_tokens serde::Deserialize<'de> for #name #ty_generics #impl_where_clause {
-            fn deserialize<D>(deserializer: D) -> core::result::Result<Self, D::Error>
+            fn deserialize<__ZlinkD>(
+                deserializer: __ZlinkD,
+            ) -> core::result::Result<Self, __ZlinkD::Error>
             where
-                D: serde::Deserializer<'de>,
+                __ZlinkD: serde::Deserializer<'de>,
             {
                 // The `parameters` of an error that has none: `null` or an object.
                 #[allow(dead_code)]
